@@ -1,6 +1,7 @@
 package spec
 
 import (
+	"strings"
 	"bytes"
 	"fmt"
 	"math"
@@ -218,7 +219,7 @@ func Abs(ts TypeSpec, omit bool, v reflect.Value) AbsVal {
 		keys := v.MapKeys()
 		sort.Slice(keys, func(i, j int) bool { return keys[i].String() < keys[j].String() })
 		for _, k := range keys {
-			a.Keys = append(a.Keys, k.String())
+			a.Keys = append(a.Keys, strings.Clone(k.String()))
 			a.Vals = append(a.Vals, Abs(*ts.Elem, false, v.MapIndex(k)))
 		}
 		if v.IsNil() {
